@@ -116,6 +116,25 @@ std::string parse_dense_text(std::string const &data, Mat &m){
     for(size_t i=0; i<n; i++) if (!to_double(tk.t[i + 2], m.v[i])) return "entry " + std::to_string(i) + " is not a number: '" + tk.t[i + 2] + "'";
     return "";
 }
+// -print of complex (Fourier) coefficients: header "rows cols" counts complex entries, every entry is printed by iostream as (re,im);
+// returned as the rows x 2 cols real matrix of the documented file format (pairs of consecutive numbers)
+std::string parse_complex_text(std::string const &data, Mat &m){
+    std::string plain = data;
+    size_t opens = 0;
+    for(char &ch : plain){ if (ch == '(') opens++; if (ch == '(' || ch == ')' || ch == ',') ch = ' '; }
+    Tok tk(plain);
+    if (tk.t.size() < 2) return "fewer than two header tokens";
+    long cols = 0;
+    if (!to_long(tk.t[0], m.rows) || !to_long(tk.t[1], cols)) return "header is not two integers";
+    if (m.rows < 0 || cols < 0) return "negative size";
+    m.cols = 2 * cols;
+    size_t n = (size_t)(m.rows * m.cols);
+    if (opens != n / 2) return "expected " + std::to_string(n / 2) + " complex entries, found " + std::to_string(opens);
+    if (tk.t.size() != n + 2) return "expected " + std::to_string(n) + " real numbers, found " + std::to_string(tk.t.size() - 2);
+    m.v.resize(n);
+    for(size_t i=0; i<n; i++) if (!to_double(tk.t[i + 2], m.v[i])) return "entry " + std::to_string(i) + " is not a number: '" + tk.t[i + 2] + "'";
+    return "";
+}
 std::string parse_dense(std::string const &data, Mat &m, bool &binary){
     binary = (data.size() >= 3 && data.compare(0, 3, "TSG") == 0);
     if (!binary) return parse_dense_text(data, m);
@@ -331,6 +350,7 @@ struct Plan{
     OutKind out = out_none;
     bool vector_like = false;
     bool allow_print = true;
+    bool print_complex = false;      // -print writes (re,im) pairs (Fourier coefficients)
     bool valid = true;               // the generator believes the step is valid by the documentation
     std::vector<std::string> real_opts; // real valued options whose text is not exactly representable as a float
     // performs the documented API sequence; as_float = re-run with the real valued options rounded to float (diagnosis only)
@@ -519,7 +539,7 @@ void Script::exec(Plan &p){
         }
         if (use_print){
             std::string e;
-            if (p.out == out_dense){ Mat m; e = parse_dense_text(t.out, m); if (e.empty()){ e = diff_dense(m, o.m, p.vector_like); if (!have_tool_m){ tool_m = m; have_tool_m = true; } } }
+            if (p.out == out_dense){ Mat m; e = p.print_complex ? parse_complex_text(t.out, m) : parse_dense_text(t.out, m); if (p.print_complex) c.count("complex_matrix_compared_stdout"); if (e.empty()){ e = diff_dense(m, o.m, p.vector_like); if (!have_tool_m){ tool_m = m; have_tool_m = true; } } }
             else{ Sparse s; bool b; e = parse_sparse(t.out, s, b); if (e.empty()) e = diff_sparse(s, o.sp); }
             if (!e.empty()) note("stdout", e);
             c.count("matrix_compared_stdout");
@@ -819,7 +839,7 @@ struct Gen{
                 }
             }else o.m = Mat(n, m, std::vector<double>(cf, cf + (size_t) n * (size_t) m));
         });
-        if (G().isFourier()) p.allow_print = false; // complex numbers are printed in the (re,im) notation of iostream
+        if (G().isFourier()) p.print_complex = true; // complex numbers are printed in the (re,im) notation of iostream
         return p;
     }
     Plan getpoly(){
